@@ -245,4 +245,105 @@ Proof.
   - intros c2 H2 Hne. exists c2. split; [exact H2|reflexivity].
 Qed.
 
+Lemma kept_idx_found c b i0 :
+  In i0 (kept_idx c b) -> ct_uniques c = [] -> kfind i_name (i_name i0) (t_idx b) <> None.
+Proof.
+  intros H U F. unfold kept_idx in H. apply filter_In in H. destruct H as [Hin Hk]. apply negb_true_iff in Hk.
+  destruct (inspect_table_fields c U) as [_ [_ [_ [_ [_ [A6 _]]]]]].
+  assert (X : existsb (str_eqb (i_name i0)) (map i_name (dropped_idx (t_idx (x_t (inspect_table c))) (t_idx b))) = true).
+  { apply existsb_exists. exists (i_name (inspect_index i0)). split; [|apply str_eqb_refl].
+    apply in_map. unfold dropped_idx. apply filter_In. split; [rewrite A6; apply in_map; exact Hin|].
+    simpl. rewrite F. reflexivity. }
+  congruence.
+Qed.
+
+Lemma alter_ct_name c b : ct_name (alter_ct c b) = ct_name c.
+Proof. destruct c as [[t ai] u r]. destruct t. reflexivity. Qed.
+
+Lemma idx_names_NoDup bx : In bx B -> NoDup (map i_name (t_idx (x_t bx))) /\ forall i, In i (t_idx (x_t bx)) -> i_name i <> x_name bx.
+Proof.
+  intros Hb. assert (H := bx_names_NoDup bx Hb). unfold bx_names in H. inversion H as [|x xs Hx Hxs]; subst.
+  split; [exact Hxs|]. intros i Hi E. apply Hx. rewrite <- E. apply in_map. exact Hi.
+Qed.
+
+(** *** the difference is ALTER-able *)
+Lemma step_alter c l T dcur s bx cs :
+  inv (c :: l) T -> incl (c :: l) T0 -> NoDup (map ct_name (c :: l)) -> db_tables dcur = T ->
+  In bx B -> x_name bx = ct_name c -> tdiff (x_t (inspect_table c)) (x_t bx) = Some cs -> alterable (x_t bx) cs = true ->
+  exists pcs T', plan_loop A B [ModifyTable (x_name bx) cs] s = Some (mkPS (ps_changes s ++ pcs) (ps_skipFKs s)) /\
+                 step_post c l T dcur pcs T'.
+Proof.
+  intros I L NDL HT Hb HN HD HAL.
+  assert (Hc0 : In c T0) by (apply L; left; reflexivity).
+  assert (HcT : In c T) by (apply (iv_pending _ _ I); left; reflexivity).
+  assert (G := dk_good d0 DOK c Hc0).
+  assert (NDT := inv_table_names _ _ I).
+  assert (D := BOK bx Hb).
+  destruct (desired_cols bx D) as [NDC [CDEF _]].
+  destruct (idx_names_NoDup bx Hb) as [NDI INE].
+  set (a := x_t (inspect_table c)) in *. set (b := x_t bx) in *.
+  assert (FT : find_ct (x_name bx) T = Some c) by (rewrite HN; apply find_ct_unique; assumption).
+  destruct (inspect_table_fields c (g_uniq c G)) as [A1 [A2 [A3 [A4 [A5 [A6 [A7 A8]]]]]]]. fold a in A1, A2, A3, A4, A5, A6, A7, A8.
+  assert (FRESH : forall ib, In ib (added_idx (t_idx a) (t_idx b)) -> ~ In (i_name ib) (all_names T)).
+  { intros ib Hib Hin. unfold added_idx in Hib. apply filter_In in Hib. destruct Hib as [Hib Hnone].
+    apply in_all_names in Hin. destruct Hin as [c' [Hc' Hx]].
+    destruct (bytes_eq_dec (ct_name c') (x_name bx)) as [E|E].
+    - assert (c' = c).
+      { rewrite HN in E. eapply NoDup_map_inj; eauto. }
+      subst c'. destruct Hx as [Hx|Hx]; [apply (INE ib Hib); rewrite <- Hx; symmetry; exact HN|].
+      rewrite A6 in Hnone. rewrite kfind_inspect_index in Hnone.
+      apply in_map_iff in Hx. destruct Hx as [i0 [E0 Hi0]].
+      assert (Y : kfind i_name (i_name i0) (t_idx (ct_t c)) <> None) by (apply (kfind_in_some i_name); exact Hi0).
+      rewrite E0 in Y. destruct (kfind i_name (i_name ib) (t_idx (ct_t c))); [discriminate|congruence].
+    - apply (inv_idx_fresh _ _ bx ib c' I L Hb Hib Hc' E). exact Hx. }
+  destruct (alter_plan_exec dcur c bx cs) as [pcs [PL EX]]; fold a b; try assumption.
+  - rewrite HT. apply (iv_names _ _ I).
+  - rewrite HT. exact FT.
+  - apply (do_noauto bx D).
+  - apply (do_colok bx D).
+  - apply (do_idx bx D).
+  - intros cb Hcb. destruct (has_autoinc bx (c_name cb)) eqn:EA; [|reflexivity]. exfalso.
+    unfold added_cols in Hcb. apply filter_In in Hcb. destruct Hcb as [Hcb Hnone].
+    assert (X := cp_autoinc d0 B CP bx c cb Hb Hc0 (eq_sym HN) Hcb EA).
+    rewrite A4, find_col_inspect in Hnone. unfold has_col in X. destruct (find_col (c_name cb) (t_cols (ct_t c))); discriminate.
+  - rewrite HT. exact FRESH.
+  - exists pcs, (update_ct (x_name bx) (fun _ => alter_ct c b) T).
+    split.
+    + cbn [plan_loop]. rewrite HN, (find_xtable_A c Hc0), <- HN, (find_xtable_B bx Hb).
+      rewrite (normalized_to_id bx (do_noauto bx D)). unfold a, b in PL. rewrite PL. reflexivity.
+    + destruct (alter_names (x_name bx) c b T FT (iv_names _ _ I) NDI FRESH) as [ND' NB'].
+      assert (SY : table_synced (alter_ct c b) bx).
+      { apply (alter_sync c bx cs); fold a b; auto.
+        - apply alterable_alter_kind with (to := b). exact HAL.
+        - apply (do_noauto bx D).
+        - apply (do_crt bx D).
+        - apply (do_irt bx D). }
+      destruct (alter_ct_fields c b) as [F1 [F2 [F3 [F4 [F5 [F6 [F7 [F8 [F9 F10]]]]]]]]]. fold a in F6, F8.
+      assert (DN : done (alter_ct c b)).
+      { exists bx. split; [exact Hb|]. split; [rewrite alter_ct_name; symmetry; exact HN|]. split; [exact SY|].
+        intros x [<-|Hx]; [left; rewrite alter_ct_name; exact HN|]. right.
+        rewrite F8, map_app in Hx. apply in_app_or in Hx. destruct Hx as [Hx|Hx].
+        - apply in_map_iff in Hx. destruct Hx as [i0 [E Hi0]]. subst x.
+          assert (Y := kept_idx_found c b i0 Hi0 (g_uniq c G)).
+          destruct (kfind i_name (i_name i0) (t_idx b)) as [ib|] eqn:F; [|congruence].
+          apply kfind_some_in in F. destruct F as [Fa Fb]. rewrite <- Fb. apply in_map. exact Fa.
+        - apply in_map_iff in Hx. destruct Hx as [i0 [E Hi0]]. subst x. apply in_map.
+          unfold added_idx in Hi0. apply filter_In in Hi0. tauto. }
+      unfold step_post. repeat split.
+      * rewrite <- HT. exact EX.
+      * exact ND'.
+      * intros c' Hc'. apply (update_ct_in _ _ _ _ NDT). right. split; [apply (iv_pending _ _ I); right; exact Hc'|].
+        inversion NDL as [|x xs Hx Hxs]; subst. intros E. apply Hx. rewrite <- HN, <- E. apply in_map. exact Hc'.
+      * intros c' Hc'. apply (update_ct_in _ _ _ _ NDT) in Hc'. destruct Hc' as [[ct [Fc Ec]]|[Hc' Hne]].
+        -- right. subst c'. exact DN.
+        -- destruct (iv_all _ _ I c' Hc') as [[<-|H]|H]; [congruence|left; exact H|right; exact H].
+      * intros c' bx' Hc' Hb'. apply (update_ct_in _ _ _ _ NDT) in Hc'. destruct Hc' as [[ct [Fc Ec]]|[Hc' Hne]].
+        -- subst c'. intros f Hf. rewrite F9 in Hf. exact (iv_refs _ _ I c bx' HcT Hb' f Hf).
+        -- apply (iv_refs _ _ I); assumption.
+      * intros bx' Hb' E. exists (alter_ct c b). split.
+        -- apply (update_ct_in _ _ _ _ NDT). left. exists c. split; [exact FT|reflexivity].
+        -- rewrite alter_ct_name. symmetry. exact E.
+      * intros c2 H2 Hne. exists c2. split; [|reflexivity]. apply (update_ct_in _ _ _ _ NDT). right. split; [exact H2|congruence].
+Qed.
+
 End Step.
